@@ -403,6 +403,8 @@ def _literal_seq(node):
     v = A.const_value(node)
     if v is not NotImplemented and isinstance(v, (list, tuple)):
         return list(v)
+    if v is not NotImplemented and isinstance(v, str):
+        return list(v)          # iterating a string gives its characters, as list('...') does
     if v is None:
         return None
     return NotImplemented
@@ -489,6 +491,52 @@ def fold_registrations(repo, regs, module_order=None):
                                             % (where, norm(vnode)))
                     heap.register(w, cls, key, vref.obj, where)
                     registrations.append(Registration(m, st, cls, w, key, vref.obj, norm(vnode)))
+                return
+        if isinstance(st, ast.For):
+            # a loop over a literal table of the module (rows of constants / names / attribute references): unrolled, the
+            # row written into a copy of the body
+            it = st.iter
+            if isinstance(it, ast.Name):
+                binds = [x.value for x in m.tree.body if isinstance(x, ast.Assign) and len(x.targets) == 1
+                         and isinstance(x.targets[0], ast.Name) and x.targets[0].id == it.id]
+                if len(binds) == 1:
+                    it = binds[0]
+            tnames = None
+            if isinstance(st.target, ast.Name):
+                tnames = [st.target.id]
+            elif isinstance(st.target, ast.Tuple) and all(isinstance(t, ast.Name) for t in st.target.elts):
+                tnames = [t.id for t in st.target.elts]
+
+            def simple(e):
+                if isinstance(e, (ast.Constant, ast.Name)):
+                    return True
+                if isinstance(e, ast.Attribute):
+                    return simple(e.value)
+                if isinstance(e, ast.Call) and isinstance(e.func, ast.Name) and e.func.id in ('type', 'list', 're.compile') or (
+                        isinstance(e, ast.Call) and norm(e.func) in ('re.compile', 'type', 'list')):
+                    return True
+                if isinstance(e, (ast.Tuple, ast.List)):
+                    return all(simple(x) for x in e.elts)
+                return False
+            if isinstance(it, (ast.List, ast.Tuple)) and tnames and A.const_value(st.iter) is NotImplemented and not st.orelse \
+                    and all((isinstance(r, (ast.Tuple, ast.List)) and len(r.elts) == len(tnames) and all(simple(x) for x in r.elts))
+                            if len(tnames) > 1 else simple(r) for r in it.elts):
+                import copy
+                for r in it.elts:
+                    row = dict(zip(tnames, r.elts if len(tnames) > 1 else [r]))
+
+                    class Sub(ast.NodeTransformer):
+                        def visit_Name(self, node):
+                            if node.id in row and isinstance(node.ctx, ast.Load):
+                                return ast.copy_location(copy.deepcopy(row[node.id]), node)
+                            return node
+                    for sub in st.body:
+                        new = Sub().visit(copy.deepcopy(sub))
+                        ast.fix_missing_locations(new)
+                        for x in ast.walk(new):
+                            if not hasattr(x, 'lineno'):
+                                x.lineno = st.lineno
+                        handle(m, new, env)
                 return
         if isinstance(st, ast.For) and any(
                 isinstance(c.func, ast.Attribute) and c.func.attr in writers_by_name for c in A.calls_in(st.body)):
